@@ -1,4 +1,5 @@
 import Model.Wire
+import Model.WireMP
 import Driver.Util
 namespace DriverC04
 open Wire DriverUtil
@@ -141,6 +142,70 @@ def msgAttrs (m : Msg) : List Attr :=
 
 structure St where
   o : Opts := ⟨false, false, false, false⟩
+  fams : List FamAp := []
+
+def St.ox (s : St) : OptsX := ⟨s.o, s.fams⟩
+
+/-! multiprotocol part: rendering and description parsing -/
+
+def rRD : RD → String
+  | .as2 a b => s!"0:{a}:{b}"
+  | .ip4 a b => s!"1:{a}:{b}"
+  | .as4 a b => s!"2:{a}:{b}"
+  | .unknown t v => s!"u{t}:{hex v}"
+
+def rPfx (p : Prefix) : String := s!"{p.bits}/{hex p.addr}"
+
+def rNlriX : NlriX → String
+  | .ip p => rPfx p
+  | .labelled ls p => s!"L[{commaNats ls}]{rPfx p}"
+  | .vpn ls rd p => s!"V[{commaNats ls}]rd({rRD rd}){rPfx p}"
+
+def rPathNlrisX (l : List PathNlriX) : String := " ".intercalate (l.map fun x => s!"{x.id}:{rNlriX x.n}")
+
+def rAttrX : AttrX → String
+  | .core a => rAttr a
+  | .reach r => "{" ++ s!"f={r.flags} t=14 l={r.length} reach {r.afi} {r.safi} nh={hex r.nh} ll={hex r.ll} [{rPathNlrisX r.nlri}]" ++ "}"
+  | .unreach u => "{" ++ s!"f={u.flags} t=15 l={u.length} unreach {u.afi} {u.safi} [{rPathNlrisX u.nlri}]" ++ "}"
+
+def pRD : List String → Option (RD × List String)
+  | "0" :: a :: b :: r => some (.as2 (nat! a) (nat! b), r)
+  | "1" :: a :: b :: r => some (.ip4 (nat! a) (nat! b), r)
+  | "2" :: a :: b :: r => some (.as4 (nat! a) (nat! b), r)
+  | "u" :: t :: h :: r => (unhex h).map fun v => (.unknown (nat! t) v, r)
+  | _ => none
+
+def pNlriX : List String → Option (NlriX × List String)
+  | "i" :: bits :: a :: r => (unhex a).map fun ab => (.ip ⟨nat! bits, ab⟩, r)
+  | "l" :: r =>
+    let (ls, r1) := takeList r
+    match r1 with
+    | bits :: a :: r2 => (unhex a).map fun ab => (.labelled ls ⟨nat! bits, ab⟩, r2)
+    | _ => none
+  | "v" :: r =>
+    let (ls, r1) := takeList r
+    match pRD r1 with
+    | some (rd, bits :: a :: r2) => (unhex a).map fun ab => (.vpn ls rd ⟨nat! bits, ab⟩, r2)
+    | _ => none
+  | _ => none
+
+def pPathNlrisX : Nat → List String → Option (List PathNlriX × List String)
+  | 0, ts => some ([], ts)
+  | n + 1, id :: r =>
+    match pNlriX r with
+    | some (x, r1) => (pPathNlrisX n r1).map fun (l, r2) => (⟨nat! id, x⟩ :: l, r2)
+    | none => none
+  | _, _ => none
+
+def pFams : Nat → List String → List FamAp
+  | n + 1, a :: b :: c :: d :: r => ⟨nat! a, nat! b, b! c, b! d⟩ :: pFams n r
+  | _, _ => []
+
+def rDecX (r : DecX AttrX) : String :=
+  match r with
+  | .ok a => s!"ok {rAttrX a} len={attrXLen a}"
+  | .err => "reject"
+  | .unmodelled => "unmodelled"
 
 def rRes (r : Res Msg) : String :=
   match r with
@@ -172,6 +237,32 @@ def step (s : St) (ts : List String) : St × List String :=
       | .ok a => (s, [s!"ok {rAttr a} len={attrLen a}"])
       | .err => (s, ["reject"])
       | .unmodelled => (s, ["unmodelled"])
+  | "optsx" :: a :: b :: c :: d :: n :: rest =>
+    ({ s with o := ⟨b! a, b! b, b! c, b! d⟩, fams := pFams (nat! n) rest }, [])
+  | ["nlri", afi, safi, h] =>
+    match unhex h, famKind (nat! afi) (nat! safi) with
+    | some b, some (k, w) =>
+      match decNlriX k w b with
+      | some n => (s, [s!"ok {rNlriX n} len={nlriXLen n}"])
+      | none => (s, ["reject"])
+    | some _, none => (s, ["unmodelled"])
+    | none, _ => (s, ["bad-op"])
+  | "mpenc" :: "R" :: afi :: safi :: nh :: ll :: n :: rest =>
+    match unhex nh, unhex ll, pPathNlrisX (nat! n) rest with
+    | some nhb, some llb, some (xs, []) =>
+      let r := mkMpReach (nat! afi) (nat! safi) xs nhb llb
+      (s, [s!"{hex (encMpReach s.ox r)} L={attrXLen (.reach r)}"])
+    | _, _, _ => (s, ["bad-op"])
+  | "mpenc" :: "U" :: afi :: safi :: n :: rest =>
+    match pPathNlrisX (nat! n) rest with
+    | some (xs, []) =>
+      let u := mkMpUnreach (nat! afi) (nat! safi) xs
+      (s, [s!"{hex (encMpUnreach s.ox u)} L={attrXLen (.unreach u)}"])
+    | _ => (s, ["bad-op"])
+  | ["mpdec", h] =>
+    match unhex h with
+    | none => (s, ["bad-op"])
+    | some b => (s, [rDecX (decAttrX s.ox b)])
   | ["vflags", t, f] => (s, [if validateFlags (nat! t) (nat! f) then "1" else "0"])
   | ["gflags", t, l] => (s, [toString (getPathAttrFlags (nat! t) (nat! l))])
   | [] => (s, [])
